@@ -426,6 +426,18 @@ func runWorkerLoop(prop string, queue chan Unit, a *agg, engineErr chan string) 
 				a.mu.Lock()
 				a.unitsDone--
 				a.mu.Unlock()
+				already := false
+				for _, sk := range u.Skip {
+					if sk == res.HangCase {
+						already = true
+					}
+				}
+				if already {
+					// the check reported the same case again although it was on the skip list: it cannot be skipped
+					// (the case is not announced with Worker.Case) - give the unit up instead of restarting for ever
+					a.add(UnitResult{Unit: u.ID, Capped: "unit " + u.Name + " abandoned: case \"" + res.HangCase + "\" hangs and cannot be skipped"})
+					break
+				}
 				u.Skip = append(u.Skip, res.HangCase)
 				continue
 			}
